@@ -89,13 +89,18 @@ func (ms *Modules) Parse(data, name string) error {
 		return err
 	}
 	for _, s := range ss {
-		n, err := buildASTWithTypeDict(s, ms.typeDict)
+		// Typedefs are collected while the AST is built.  Keep them
+		// aside until the node has been accepted, so that a rejected
+		// statement leaves nothing behind in ms.
+		types := newTypeDictionary()
+		n, err := buildASTWithTypeDict(s, types)
 		if err != nil {
 			return err
 		}
 		if err := ms.add(n); err != nil {
 			return err
 		}
+		ms.typeDict.merge(types)
 	}
 	return nil
 }
